@@ -21,6 +21,30 @@ def _strip_conv(e):
     return e
 
 
+def _column_map(sc, aug):
+    """`rows[r][T[len(c)]] += 1` with T = {size: col for col, size in enumerate(ORDER)} (or ORDER.index(len(c))):
+    returns (table node, ORDER expression) or None."""
+    col = sc.resolve(aug.target.slice)
+    if isinstance(col, ast.Name) and len(sc.assigns.get(col.id, [])) == 1 and isinstance(sc.assigns[col.id][0], ast.Assign):
+        col = sc.assigns[col.id][0].value       # bound once, inside the clique loop
+    if isinstance(col, ast.Call) and isinstance(col.func, ast.Attribute) and col.func.attr == "index" and len(col.args) == 1:
+        return col, sc.resolve(col.func.value)
+    if not isinstance(col, ast.Subscript):
+        return None
+    t = sc.resolve(col.value)
+    if isinstance(t, ast.DictComp) and len(t.generators) == 1 and not t.generators[0].ifs:
+        g = t.generators[0]
+        it = sc.resolve(g.iter)
+        if isinstance(it, ast.Call) and txt(it.func) == "enumerate" and len(it.args) == 1 and not it.keywords and isinstance(g.target, ast.Tuple) and len(g.target.elts) == 2 \
+                and txt(t.key) == txt(g.target.elts[1]) and txt(t.value) == txt(g.target.elts[0]):
+            return t, sc.resolve(it.args[0])
+    if isinstance(t, ast.Call) and txt(t.func) == "dict" and len(t.args) == 1 and isinstance(t.args[0], ast.Call) and txt(t.args[0].func) == "zip" and len(t.args[0].args) == 2:
+        a, b = t.args[0].args
+        if (isinstance(b, ast.Call) and txt(b.func) in ("range", "count", "itertools.count")):
+            return t, sc.resolve(a)
+    return None
+
+
 def run(ctx):
     prog = ctx.prog
     ctx.trust("collections.Counter needs hashable items", "sorted() is ascending unless reverse=True", "del row[i] shifts later elements left")
@@ -194,6 +218,23 @@ def run(ctx):
                             o.violated(cj, src, "zero columns are determined from a subset of the rows")
                         else:
                             o.undecided(f"index list `{txt(src)}` not recognised", cj, src)
+        elif not dels and jds_name and _column_map(sc, augs[0]) is not None:
+            # no column is ever removed: the columns are allotted up front, one per clique size that occurs, through a
+            # size -> column table.  Column k must then be the k-th SMALLEST occurring size (that is what _motif_sizes says).
+            tbl, order = _column_map(sc, augs[0])
+            o.holds(cj, tbl, "one column per occurring clique size is allotted up front: no all-zero column exists")
+            r_ = order
+            while isinstance(r_, ast.Call) and txt(r_.func) in ("list", "tuple") and len(r_.args) == 1:
+                r_ = r_.args[0]
+            if (isinstance(r_, ast.Call) and txt(r_.func) == "sorted" and not any(k.arg == "reverse" for k in r_.keywords)) or txt(r_) == "self._motif_sizes":
+                o3.holds(cj, tbl, f"columns numbered along `{txt(r_)[:60]}`: ascending clique size, as in _motif_sizes")
+            elif (isinstance(r_, ast.Call) and txt(r_.func) in ("Counter", "collections.Counter", "set", "frozenset", "dict.fromkeys", "dict", "OrderedDict")) or isinstance(r_, (ast.SetComp, ast.DictComp, ast.Set)) \
+                    or (isinstance(r_, ast.Call) and txt(r_.func) == "sorted" and any(k.arg == "reverse" for k in r_.keywords)) \
+                    or (isinstance(r_, ast.Call) and txt(r_.func) == "reversed"):
+                o3.violated(cj, tbl, f"columns are numbered in the iteration order of `{txt(r_)[:70]}` (first occurrence / hash order / descending), not by ascending clique size: "
+                                     "column k of every joint degree no longer belongs to the k-th entry of _motif_sizes", shape_free=True)
+            else:
+                o3.undecided(f"order of the sizes `{txt(r_)[:70]}` that number the columns not recognised", cj, tbl)
         elif not dels and jds_name:
             # rebuilt rows: jds = [[x for i, x in enumerate(row) if i not in zero] for row in jds]
             o3.undecided("no `del row[i]`: rows rebuilt by a keep-list are not modelled", cj)
